@@ -1264,7 +1264,12 @@ def _emitter_samples(ctx):
                          is_const="", is_ref="", is_ptr="", is_shared_ptr="", is_basic=True)
 
     def mk_args(specs):
-        al = [SampleObj(__kind__="Argument", name=n, ctype=ty(t, ns), default=d, parent=None) for n, t, ns, d in specs]
+        al = []
+        for sp_ in specs:
+            n, t, ns, d = sp_[:4]
+            ct = ty(t, ns)
+            ct.update(sp_[4] if len(sp_) > 4 else {})
+            al.append(SampleObj(__kind__="Argument", name=n, ctype=ct, default=d, parent=None))
         return SampleObj(__kind__="ArgumentList", args_list=al, parent=None)
 
     def rt(name):
@@ -1283,6 +1288,7 @@ def _emitter_samples(ctx):
                decl("StaticMethod", "make", [D, ("scale", "double", (), None), ("s", "K", ("ns",), "ns::K( 1,  2 )")]), decl("StaticMethod", "make", [])]
     # (`s` is left out at arity 2 and its name occurs inside the supplied `scale`: names are compared whole)
     meths = [decl("Method", "at", [("i", "size_t", (), None)]), decl("Method", "size", [], ret="size_t"),
+             decl("Method", "tag", [("label", "string", (), None, {"is_const": "const", "is_ref": "&"}), ("plain", "string", (), None)], ret="void"),
              decl("Method", "at", [("i", "size_t", (), None), ("j", "size_t", (), None), ("c", "double", (), "0.0")]), decl("Method", "at", [])]
     funcs = [decl("GlobalFunction", "scale", [D], parent=nsn), decl("GlobalFunction", "scale", [D, ("k", "K", ("ns",), None), ("w", "double", (), "1.0")], parent=nsn)]
     cls["static_methods"] = statics
@@ -1388,7 +1394,7 @@ def _balanced_args(text: str, start: int) -> Optional[List[str]]:
     return None
 
 
-def rule_routines_by_evaluation(ctx, rep: Report, rid="I11"):
+def rule_routines_by_evaluation(ctx, rep: Report, rid="I11", conversions=True):
     """The C++ routine generated for an id belongs to the overload the id was registered for: it is named with that id, checks
     for as many arguments as that overload takes (`nargin-1` behind a receiver), unwraps the k-th supplied parameter from the
     k-th input (one further for a method), and calls the declared entity with the supplied parameters in order followed by
@@ -1424,6 +1430,7 @@ def rule_routines_by_evaluation(ctx, rep: Report, rid="I11"):
         return
     rep.units["routines_evaluated"] = len(routines)
     probs = []
+    handle_probs = []
     for fid, text in sorted(routines.items()):
         ent = wm[fid]
         objs = [x for x in ent if isinstance(x, dict) and "args" in x and "name" in x]
@@ -1448,7 +1455,13 @@ def rule_routines_by_evaluation(ctx, rep: Report, rid="I11"):
                 probs.append(f"id {fid} [{label}]: checks for {chk.group(2)} argument(s), the overload takes {len(supplied)}")
             if bool(chk.group(1)) != is_method:
                 probs.append(f"id {fid} [{label}]: argument count taken {'behind' if chk.group(1) else 'without'} a receiver")
-        got_in = {nm: int(k) for nm, k in re.findall(r"(\w+)\s*=\s*unwrap\w*\s*<[^;]*?>\s*\(\s*in\[(\d+)\]", text) if nm != "obj"}
+        got_in = {nm: int(k) for nm, k in re.findall(r"(\w+)\s*=\s*\*?\s*unwrap\w*\s*<[^;]*?>\s*\(\s*in\[(\d+)\]", text) if nm != "obj"}
+        # a parameter that MATLAB passes as a built-in array (char, double ...) is converted from the array, not looked up as an object handle
+        for a_ in ov["args"]["args_list"]:
+            if a_["ctype"]["typename"]["name"] in ("string", "double", "size_t", "int", "bool", "char"):
+                how_ = re.search(r"(?<!\w)" + re.escape(a_["name"]) + r"\s*=\s*\*?\s*(unwrap\w*)\s*<", text)
+                if how_ and how_.group(1) != "unwrap":
+                    handle_probs.append((fid, label, a_["name"], a_["ctype"]["typename"]["name"], how_.group(1)))
         for k, nm in enumerate(supplied):
             want_k = k + (1 if is_method else 0)
             if got_in.get(nm) != want_k:
@@ -1466,6 +1479,10 @@ def rule_routines_by_evaluation(ctx, rep: Report, rid="I11"):
         void = ov["return_type"]["is_void"]() if callable(ov["return_type"].get("is_void")) else False
         if not void and "out[0]" not in text:
             probs.append(f"id {fid} [{label}]: the result is not handed back")
+    if conversions:
+        rep.add(rid, "routines:a parameter MATLAB passes as a built-in array is converted from the array", not handle_probs,
+                f"{[f'{lab_}: `{n_}` ({t_}) goes through {h_}' for _, lab_, n_, t_, h_ in handle_probs][:3]}: the .m guard admits a char / numeric array for this parameter, "
+                f"the routine looks the `ptr_...` property of an object handle up on it - the call cannot succeed", loc)
     rep.add(rid, "routines:each one checks, unwraps and calls for the overload its id is registered for", not probs,
             f"{probs[:3]}: the gateway reaches the right case but the routine reads other inputs or calls the entity with other arguments than the overload declares",
             loc)
